@@ -10,7 +10,7 @@ WT="/tmp/seed-$ID"; OUT="/tmp/seed-$ID-out"; LOG="/tmp/verify-$ID.log"
 : > "$LOG"
 cd "$WT" || { echo "no worktree"; exit 2; }
 unset RUSTFLAGS; export CARGO_NET_OFFLINE=true
-git stash -q -u 2>/dev/null; git stash drop -q 2>/dev/null   # start clean (demo files are in $OUT/demo)
+# start clean (demo files are in $OUT/demo); never use git stash here: stashes are shared by all worktrees
 git checkout -q . ; git clean -fdq -e target
 # locate where the demo goes (README says; default: first *.rs into searchlite-core/tests)
 DEMO_RS=$(ls "$OUT"/demo/*.rs 2>/dev/null | head -1)
